@@ -1,6 +1,7 @@
 import Cardutil.Model.Cli
 import Cardutil.Props.C06
 import Cardutil.Props.C01
+import Cardutil.Lemmas.IsoReencode
 /-
   C19 — encoding/format conversion tools preserve every record and are reversible.
 
@@ -137,6 +138,72 @@ theorem C19_noPds (cfg : Config) : ∀ e ∈ noPds cfg, e.2.proc ≠ .pds := by
   split
   · simp
   · rename_i h; simpa using h
+
+/-- C19 (the step behind byte-for-byte reversibility of the IPM tools): for a configuration
+    without PAN masking, decoding a record the library wrote and encoding the result again gives
+    the SAME BYTES — the decoder's typed values (numbers, date-times), masked nothing, and derived
+    entries (TAGxxxx, ICC_DATA, DE43_*) do not change what the encoder emits -/
+theorem C19_reencode_identity {env : Env} (henv : EnvOK env) (cfg : Config) (hexBitmap : Bool) (m : Dict)
+    (hnopan : ∀ bit f, cfg.get bit = some f → f.proc ≠ .pan ∧ f.proc ≠ .panPrefix)
+    (ds : List Nat) (hds : ∀ d ∈ ds, d < 10) (hl : ds.length = 4)
+    (hmti : Dict.get m .mti = some (.str (digitText ds)))
+    (hnopds : pdsEntriesOf m = [])
+    (hwf : ElemsWF env cfg m allBits) :
+    ∃ bs d, encode env cfg hexBitmap m = .ok bs ∧ decode env cfg hexBitmap bs = .ok d ∧
+      encodeCore env cfg hexBitmap d = .ok bs := by
+  obtain ⟨bs, d, h1, h2, h3, h4, h5⟩ := C01.C01_roundtrip henv cfg hexBitmap m ds hds hl hmti hnopds hwf
+  refine ⟨bs, d, h1, h2, ?_⟩
+  rw [C01.encode_no_pds _ _ _ _ hnopds] at h1
+  rw [← h1]
+  apply encodeCore_congr
+  · rw [h3, hmti]
+  · intro bit hb
+    cases hm : Dict.get m (.de bit) with
+    | some v =>
+      by_cases hp : present v = true
+      · obtain ⟨f, exp, sub, hcfg, hw, hget⟩ := h4 bit hb v hm hp
+        have := wf_exp_eq hw (hnopan bit f hcfg)
+        subst this
+        rw [hget]
+      · have hp' : present v = false := by simpa using hp
+        simp only [hp', Bool.false_eq_true, if_false]
+        cases hd : Dict.get d (.de bit) with
+        | none => rfl
+        | some x =>
+          exfalso
+          rcases h5 _ (mem_of_get hd) with h6 | ⟨bit', v', hk, hv', hp''⟩ | h6
+          · simp at h6
+          · simp only at hk
+            injection hk with e
+            subst e
+            rw [hm] at hv'
+            injection hv' with e2
+            subst e2
+            rw [hp'] at hp''
+            simp at hp''
+          · simp [Key.isDerived] at h6
+    | none =>
+      simp only
+      cases hd : Dict.get d (.de bit) with
+      | none => rfl
+      | some x =>
+        exfalso
+        rcases h5 _ (mem_of_get hd) with h6 | ⟨bit', v', hk, hv', _⟩ | h6
+        · simp at h6
+        · simp only at hk
+          injection hk with e
+          subst e
+          rw [hm] at hv'
+          simp at hv'
+        · simp [Key.isDerived] at h6
+
+/-- the packaged configuration has no PAN masking (re-checked against /repo on every run) -/
+theorem packaged_no_pan : ∀ bit f, Gen.bitConfig.get bit = some f → f.proc ≠ .pan ∧ f.proc ≠ .panPrefix := by
+  intro bit f hget
+  obtain ⟨e, he, rfl⟩ := config_get_mem hget
+  have hall : Gen.bitConfig.all (fun e => e.2.proc != .pan && e.2.proc != .panPrefix) = true := by decide
+  have := List.all_eq_true.mp hall e he
+  simpa using this
 
 -- sanity test (evaluated): latin_1 -> cp500 -> latin_1 on a record of all 256 byte values
 #guard ((recode Gen.latin_1 Gen.cp500 (List.range 256)).bind (recode Gen.cp500 Gen.latin_1)) == some (List.range 256)
